@@ -228,6 +228,9 @@ Flags(i) ==
     emptied |-> step /\ \E p \in s2.pairs : LiveOf(s2, p) = {} /\ HasPair(s, p.app, p.id) /\ LiveOf(s, p) # {},
     farmed |-> \E pl \in s2.pools : Farmed(s2, pl) > 0,
     activeFarm |-> s2.af # {},
+    farmTopUp |-> step /\ nd.a = "EndBlock" /\ \E r \in s.af : \E r2 \in s2.af : r2.app = r.app /\ r2.pool = r.pool /\ r2.owner = r.owner /\ r2.amt > r.amt,
+    farmTopUpDiff |-> step /\ nd.a = "EndBlock" /\ \E r \in s.af : \E r2 \in s2.af : r2.app = r.app /\ r2.pool = r.pool /\ r2.owner = r.owner /\ r2.amt > r.amt
+                         /\ PoolOf(s2, r.app, r.pool).pair # r.pool,
     supply |-> step /\ \E pl \in s2.pools : HasPool(s, pl.app, pl.id) /\ PoolOf(s, pl.app, pl.id).ps # pl.ps,
     pending |-> Pending(s2) # {},
     disabled |-> \E pl \in s2.pools : pl.disabled,
@@ -238,7 +241,7 @@ Flags(i) ==
 FL == [i \in 1..NLog |-> Flags(i)]
 Cnt(f) == Cardinality({i \in 1..NLog : FL[i][f]})
 Stats == PrintT(<<"STATS", [k \in {"step", "ok", "placed", "marketPlaced", "marketBoundary", "feeStepPlaced", "roundedUpPlaced", "marketPartialEnd", "cancel", "cancelAll", "cancelAllMixed", "mmImproved", "mm", "mmDiff", "mmPartial", "completed", "expired", "canceled", "partialEnd", "filled",
-                                   "emptied", "farmed", "activeFarm", "supply", "pending", "disabled", "zeroSupply", "activeUnfarm", "ledger", "residue"} |-> Cnt(k)]
+                                   "emptied", "farmed", "activeFarm", "farmTopUp", "farmTopUpDiff", "supply", "pending", "disabled", "zeroSupply", "activeUnfarm", "ledger", "residue"} |-> Cnt(k)]
                             @@ [nodes |-> NLog]>>)
 AllSeen == Stats /\ TLCGet("stats").distinct = NLog + NB + 1
 =============================================================================
